@@ -1033,10 +1033,32 @@ def _sort_by_key(it, key, raw, args):
     return UNIT
 
 
+def sort_orderstat(it, cells):
+    """non-forking sort of integers: the i-th output is a fresh integer constrained to be the i-th order statistic
+    of the inputs (a member of the inputs with at least i+1 inputs <= it and at least n-i inputs >= it)"""
+    xs = [c.v for c in cells]
+    n = len(xs)
+    ty = xs[0].ty
+    it.fresh_n += 1
+    outs = []
+    for i in range(n):
+        s = z3.Int('sorted%d_%d' % (it.fresh_n, i))
+        le = z3.Sum([z3.If(zt(x.t) <= s, 1, 0) for x in xs])
+        ge = z3.Sum([z3.If(zt(x.t) >= s, 1, 0) for x in xs])
+        it.assume(z3.And(z3.Or(*[s == zt(x.t) for x in xs]), le >= i + 1, ge >= n - i))
+        outs.append(SInt(s, ty))
+    for c, o in zip(cells, outs):
+        c.v = o
+
+
 @model('impl#[T]::sort', 'impl#[T]::sort_unstable')
 def _sort(it, key, raw, args):
     sl = as_slice(args[0])
-    sort_cells(it, sl.cells(), lambda c: c.v)
+    cells = sl.cells()
+    if len(cells) > 3 and all(isinstance(c.v, SInt) for c in cells) and sum(1 for c in cells if not c.v.conc) > 3:
+        sort_orderstat(it, cells)
+        return UNIT
+    sort_cells(it, cells, lambda c: c.v)
     return UNIT
 
 
@@ -2062,3 +2084,46 @@ def _any_cmp(it, key, raw, args):
 def _any_partial_cmp(it, key, raw, args):
     from .models_coll import cmp_values
     return some(Agg('Ordering', [], cmp_values(it, args[0], args[1])))
+
+
+# ----- std::time::Duration (seconds and nanoseconds)
+def dur(secs, nanos=0):
+    return Agg('Duration', [Cell(secs if isinstance(secs, SInt) else SInt(secs, 'u64')), Cell(SInt(nanos, 'u32'))])
+
+
+@model('Duration::from_secs')
+def _dur_from_secs(it, key, raw, args):
+    return dur(args[0])
+
+
+@model('Duration::as_secs')
+def _dur_as_secs(it, key, raw, args):
+    return deref(args[0]).f(0)
+
+
+@model('<Duration as Add>::add')
+def _dur_add(it, key, raw, args):
+    a, b = args
+    if not (a.f(1).conc and b.f(1).conc and a.f(1).t == 0 and b.f(1).t == 0):
+        raise Unsupported('Duration with nanoseconds')
+    r = it.binop('AddWithOverflow', a.f(0), b.f(0))
+    if it.branch(r.fields[1].v):
+        raise Panic('overflow when adding durations')
+    return dur(r.fields[0].v)
+
+
+@model('<u32 as Mul>::mul', '<Duration as Mul>::mul')
+def _dur_mul(it, key, raw, args):
+    a, b = args
+    if isinstance(a, Agg):
+        a, b = b, a
+    if isinstance(b, Agg) and b.ty == 'Duration':
+        r = it.binop('MulWithOverflow', SInt(a.t, 'u64'), b.f(0))
+        if it.branch(r.fields[1].v):
+            raise Panic('overflow when multiplying duration by scalar')
+        return dur(r.fields[0].v)
+    return it.binop('Mul', a, b)
+
+
+for _op in ('lt', 'le', 'gt', 'ge'):
+    MODELS['<Duration as PartialOrd>::%s' % _op] = (lambda op: lambda it, key, raw, args: lex_cmp(it, args[0], args[1], op))(_op)
